@@ -12,6 +12,20 @@ mod tests;
 use ff::Field;
 use CurveProjective;
 
+/// Verification hook: the two square-root addition chains and the constants
+/// (A', B', Z) of the isogenous curves.
+#[cfg(feature = "verif")]
+pub mod verif_consts {
+    pub use super::chain::{chain_p2m9div16, chain_pm3div4};
+    use bls12_381::{Fq, Fq2};
+    pub fn g1() -> (Fq, Fq, Fq) {
+        super::g1::verif_consts()
+    }
+    pub fn g2() -> (Fq2, Fq2, Fq2) {
+        super::g2::verif_consts()
+    }
+}
+
 /// Trait for mapping from base field element to curve point
 pub trait OSSWUMap: CurveProjective {
     /// Evaluate optimized simplified SWU map on supplied base field element
@@ -20,6 +34,8 @@ pub trait OSSWUMap: CurveProjective {
 
 #[inline(always)]
 fn osswu_help<F: Field>(u: &F, xi: &F, ellp_a: &F, ellp_b: &F) -> [F; 7] {
+    #[cfg(feature = "verif")]
+    ::verif_probe::probe(::verif_probe::OSSWU_MAP);
     let usq = {
         let mut tmp = *u;
         tmp.square();
